@@ -12,6 +12,10 @@ from . import xfuncs
 BIG_REGIONS = 1 << 30  # 1G, max input data size before we use threads <shrug>
 
 
+class _StopIterationInPool(Exception):
+    """Carries a StopIteration raised inside a pool task back to calculate()."""
+
+
 class xcube:
     """An N-dimensional contingency cube of NumPy arrays.
 
@@ -228,8 +232,20 @@ class xcube:
                     bucket["start"] = start
 
         if self.parallel:
+
+            def fill_one_cube_in_pool(task):
+                # The pool runs each chunk of tasks as list(map(func, chunk)), which
+                # takes a StopIteration for the end of the chunk and swallows it.
+                try:
+                    fill_one_cube(task)
+                except StopIteration as exc:
+                    raise _StopIterationInPool(exc)
+
             with closing(self.pool_class(self.poolsize)) as pool:
-                pool.map(fill_one_cube, self.product)
+                try:
+                    pool.map(fill_one_cube_in_pool, self.product)
+                except _StopIterationInPool as carrier:
+                    raise carrier.args[0]
         else:
             # The only reason to _not_ multithread this is the extra overhead;
             # for example, if there's only one region anyway, or there are a handful
